@@ -97,18 +97,26 @@ def rule_rangedecoder(facts):
         blk, t = sw
         n += 1
         bad = None
+        sense = None        # True: the test is `code < bound` (true edge = bit 0); False: its negation (true edge = bit 1)
         try:
-            for (R, C, P) in GRID + [(1 << 24, ((1 << 24) >> 11) * 0x400, 0x400), (1 << 24, ((1 << 24) >> 11) * 0x400 - 1, 0x400)]:
-                if pat.eval_cmp(t, _leaf(R, C, P)) != (C < bound(R, P)):
-                    bad = "range=0x%x code=0x%x prob=0x%x" % (R, C, P)
-                    break
+            pts = GRID + [(1 << 24, ((1 << 24) >> 11) * 0x400, 0x400), (1 << 24, ((1 << 24) >> 11) * 0x400 - 1, 0x400)]
+            tv = [pat.eval_cmp(t, _leaf(R, C, P)) for (R, C, P) in pts]
+            ref = [C < bound(R, P) for (R, C, P) in pts]
+            if tv == ref:
+                sense = True
+            elif tv == [not x for x in ref]:
+                sense = False
+            else:
+                k = [i for i in range(len(pts)) if tv[i] != ref[i]][0]
+                bad = "range=0x%x code=0x%x prob=0x%x" % pts[k]
         except (pat.NotEvaluable, pat.Overflow) as ex:
             bad = "not evaluable: %s" % flow.show(ex.args[0])[:60]
-        if bad:
-            r.bad("decode_bit|test", "the bit test is not `code < (range >> 11) * prob` (%s)" % bad, pat.where(db, blk.idx))
+        if sense is None:
+            r.bad("decode_bit|test", "the bit test is neither `code < (range >> 11) * prob` nor its negation (%s)" % bad, pat.where(db, blk.idx))
         else:
             r.ok("evaluation", {"decode_bit": "bit = !(code < (range >> 11) * prob)"})
-        zero_e, one_e = blk.term.otherwise, blk.term.targets[0][1]
+        true_e, false_e = blk.term.otherwise, blk.term.targets[0][1]
+        zero_e, one_e = (true_e, false_e) if sense in (True, None) else (false_e, true_e)
         want = {
             (0, "range"): lambda R, C, P: bound(R, P),
             (0, "prob"): lambda R, C, P: P + ((0x800 - P) >> 5),
@@ -140,21 +148,38 @@ def rule_rangedecoder(facts):
         miss = set(want) - seen
         if miss and not r.findings:
             r.bad("decode_bit|missing", "decode_bit no longer updates %s" % sorted(miss), pat.where(db))
-        # returned bit and normalisation on both sides
-        for bit, e in ((0, zero_e), (1, one_e)):
-            inside = {x for x in c.reach if c.dominates(e, x) or x == e}
-            rets = []
-            for x in inside:
-                for s in db.blocks[x].stmts:
-                    if s.k == "assign" and s.place.local == 0 and not s.place.proj and s.rv.k == "aggregate" and s.rv.agg == "adt" and s.rv.variant == 0:
-                        rets.append(pt.at(x, None).of_operand(s.rv.ops[0]))
-            norm = [x for x in inside if db.blocks[x].term.k == "call" and (flow.callee(db.blocks[x].term) or "").endswith("RangeDecoder::normalize")]
-            n += 1
-            if rets == [("const", bit)] and norm:
-                r.ok("term", {"bit %d" % bit: "normalize, then Ok(%s)" % bool(bit)})
+        # returned bit: a constant per branch, or the value of the test itself; normalisation on every path to the return
+        rets = []
+        for x in db.blocks:
+            if x.cleanup or x.idx not in c.reach:
+                continue
+            for s_ in x.stmts:
+                if s_.k == "assign" and s_.place.local == 0 and not s_.place.proj and s_.rv.k == "aggregate" and s_.rv.agg == "adt" and s_.rv.variant == 0:
+                    rets.append((x.idx, pt.at(x.idx, None).of_operand(s_.rv.ops[0])))
+        n += 1
+        okr = bool(rets)
+        for (x, rt) in rets:
+            if rt[0] == "const":
+                side = 0 if (c.dominates(zero_e, x) or zero_e == x) else 1 if (c.dominates(one_e, x) or one_e == x) else None
+                if side is None or rt[1] != side:
+                    okr = False
             else:
-                r.bad("decode_bit|return:%d" % bit, "the branch for bit %d returns %s / normalises %d times" % (bit, [flow.show(x) for x in rets], len(norm)),
-                      pat.where(db, e))
+                try:
+                    pts = GRID[:40]
+                    if [bool(pat.eval_cmp(rt, _leaf(R, C, P))) for (R, C, P) in pts] != [C >= bound(R, P) for (R, C, P) in pts]:
+                        okr = False
+                except (pat.NotEvaluable, pat.Overflow):
+                    okr = False
+        if okr:
+            r.ok("term", {"decode_bit returns": "the decoded bit"})
+        else:
+            r.bad("decode_bit|return", "decode_bit does not return the decoded bit: %s" % [flow.show(x[1])[:40] for x in rets], pat.where(db))
+        norm = [x.idx for x in db.calls() if (flow.callee(x.term) or "").endswith("RangeDecoder::normalize")]
+        n += 1
+        if norm and not any(x in c.reachable_from(blk.idx, avoid=norm) for (x, _) in rets):
+            r.ok("must-pass", {"decode_bit": "normalises on every path from the bit test to Ok"})
+        else:
+            r.bad("decode_bit|normalize", "a decoded bit can be returned without normalisation", pat.where(db))
     # ---------------------------------------------------------------- get_bit
     pt = PosTerms(gb)
     c = cfg(gb)
